@@ -407,6 +407,8 @@ func (r *runner) segment(list []*input, from int, single bool) int {
 		lastPeek := lightPeek(victim)
 		startCur := lastPeek.cur
 		dead := false
+		stalled := false
+		_ = stalled
 		sinceStart := 0
 		visits := 0
 		usedForger := false
@@ -492,6 +494,13 @@ func (r *runner) segment(list []*input, from int, single bool) int {
 			}
 			next++
 			if single && (next >= len(list) || in.unit == 0 || list[next].unit != in.unit) {
+				break
+			}
+			if !dead && victim.PC.Pending() > 0 {
+				// the read loop no longer takes datagrams off the socket although the endpoint is neither closed nor
+				// failed: stop here; the continuation decides whether valid traffic is still served
+				r.res.count("read_loop_stopped_consuming", 1)
+				stalled = true
 				break
 			}
 			if !dead && pk.cur != startCur {
@@ -647,6 +656,9 @@ func (r *runner) wedges(sub []*input) string {
 				if d.ID >= baseID && d.Src == cx.victim.Addr {
 					w.Take(d)
 				}
+			}
+			if cx.victim.PC.Pending() > 0 {
+				break
 			}
 		}
 		if done, herr := cx.victim.HS.Result(); lightPeek(cx.victim).closed || (done && herr != nil) {
@@ -820,7 +832,7 @@ func (r *runner) continuation(cx *ctx, reader *world.Op, rl *readerLog, strict b
 // finish turns deferred observations into findings.
 func (r *runner) finish() {
 	if r.cacheFirst != "" {
-		r.res.add("memory-bound-exceeded:handshake-cache:"+r.vers(), fmt.Sprintf("case %s: injected handshake messages accumulate in the handshake cache without bound: it reached %d entries while the endpoint stayed alive (the default run never holds more than %d; bound used %d); first exceeded after %s",
+		r.res.add("memory-bound-exceeded:handshake-cache:"+r.vers(), fmt.Sprintf("case %s: the handshake cache grows with every injected datagram, without bound: it reached %d entries while the endpoint stayed alive (the default run never holds more than %d; bound used %d); first exceeded after %s",
 			r.sp.id(), r.cacheMaxSeen, r.cacheLimit-cacheSlack, r.cacheLimit, r.cacheFirst))
 	}
 }
